@@ -159,6 +159,34 @@ def check_user(case):
                     continue
                 v("invalid-user-alphabet-accepted", "user alphabet %s with fault %s at %s was accepted: %r" % (name, fname, a, r[0]),
                   ua=name, fault=fname, residue=a)
+    # the same on ONE live object: valid alphabets, faulty ones and predefined sizes interleaved
+    from localcider.sequenceParameters import SequenceParameters as SP
+    o = SP(seq)
+    vas = list(valid_user_alphabets().items())
+    for rnd in range(2):
+        for i, (name, ua) in enumerate(vas if rnd == 0 else list(reversed(vas))):
+            calls += 3
+            try:
+                r = o.get_reduced_alphabet_sequence(userAlphabet=dict(ua))
+                if r[0] != "".join(ua[a] for a in seq) or sorted(r[1]) != sorted(set(ua.values())):
+                    v("user-alphabet-depends-on-earlier-calls", "on a reused object user alphabet %s gave %r" % (name, r), ua=name)
+            except Exception as e:  # noqa
+                v("valid-user-alphabet-rejected", "on a reused object user alphabet %s raised %r" % (name, e), ua=name)
+            bad = dict(ua)
+            bad[T.AA[(3 * i + rnd) % 20]] = "s"
+            try:
+                r = o.get_reduced_alphabet_sequence(userAlphabet=bad)
+                v("invalid-user-alphabet-accepted", "on a reused object a user alphabet mapping to 's' was accepted: %r" % (r[0],), ua=name)
+            except Exception:  # noqa
+                pass
+            size = T.SIZES[(5 * i + rnd) % 12]
+            try:
+                r = o.get_reduced_alphabet_sequence(size)
+                gm = {a: g for g in T.REDUCED[size] for a in g}
+                if len(r[0]) != len(seq) or any(b not in gm[a] for a, b in zip(seq, r[0])):
+                    v("wrong-group", "on a reused object size %d gave %s" % (size, r[0]), size=size)
+            except Exception as e:  # noqa
+                v("exception", "on a reused object size %d raised %r" % (size, e), size=size)
     for bad in ([("A", "A")], "ACDEFGHIKLMNPQRSTVWY", 5, [1, 2, 3], ("A",), {"A"}):
         calls += 1
         try:
